@@ -72,6 +72,11 @@ PROFILES = {
     'fleets': {'fleets': ['fa', 'fb'], 'valid_p': 0.6},
     'fullsteps': {'p_full_step': 1.0, 'vehicles': 3, 'valid_p': 0.9},
     'routes': {'multi_link': True, 'vehicles': 3, 'stations': 1, 'bases': 1, 'deltas': [1, 7, 30, 60, 61, 90], 'valid_p': 0.9, 'p_full_step': 0.4},
+    # two fast-charging stations side by side, the first throttled to half its rate: the same vehicle model charges at a weak
+    # and at a strong plug within one history
+    'twoplugs': {'vehicles': 4, 'stations': 2, 'bases': 0, 'max_plugs': 2, 'charger_types': ['DCFC'], 'bev_only': True, 'colocate': True, 'near': True,
+                 'clusters': (1, 3), 'fleets': [], 'valid_p': 0.95, 'p_full_step': 0.5, 'throttle_first': 0.5,
+                 'instr_weights': [3, 0.2, 4, 2, 0.2, 0.2, 1.5, 0.2, 0.1]},
     'rawops': {'p_raw': 1.0},
     'rawmix': {'p_raw': 0.25, 'stations': 2, 'bases': 1},
 }
